@@ -43,6 +43,21 @@ instance {α} [Sub α] : HSub (Bound α) α (Bound α) := ⟨Bound.subScalar⟩
 @[simp] theorem Bound.posInf_sub {α} [Sub α] (x : α) : ((Bound.posInf : Bound α) - x : Bound α) = .posInf := rfl
 @[simp] theorem Bound.negInf_sub {α} [Sub α] (x : α) : ((Bound.negInf : Bound α) - x : Bound α) = .negInf := rfl
 
+/-- `lo ≤ x` for a lower confidence bound `lo` (`−∞` is below everything, `+∞` below nothing) -/
+def Bound.lowerLE {α} [LE α] : Bound α → α → Prop
+  | .fin a, x => a ≤ x
+  | .negInf, _ => True
+  | .posInf, _ => False
+
+/-- `x ≤ hi` for an upper confidence bound `hi` -/
+def Bound.upperGE {α} [LE α] : Bound α → α → Prop
+  | .fin a, x => x ≤ a
+  | .posInf, _ => True
+  | .negInf, _ => False
+
+/-- the interval `[lo, hi]` contains `x` -/
+def Bound.contains {α} [LE α] (lo hi : Bound α) (x : α) : Prop := lo.lowerLE x ∧ hi.upperGE x
+
 /-- aggregated statistics, as total functions of column names (a Python `Aggregates`
 object whose dictionaries hold every key that is looked up) -/
 structure Aggr (α : Type) where
